@@ -42,8 +42,12 @@ def judge_metadata(ctx, res, md, w, extractor):
     j = res.live.journal
     body = [e for e in j.events if e['ev'] == 'op_body'][0]
     raised = body.get('raised')
-    interrupted = raised is not None and not isinstance(raised, Exception)
-    ordinary = isinstance(raised, Exception)
+    from playback.exceptions import TapeRecorderException
+    # (an exception of the framework's own family that escapes from the operation is passed through as a framework failure: no result
+    #  is produced - the run was cut short)
+    framework_error = isinstance(raised, TapeRecorderException)
+    interrupted = raised is not None and (not isinstance(raised, Exception) or framework_error)
+    ordinary = isinstance(raised, Exception) and not framework_error
     ctx.count('metadata_checked')
     ctx.count('runs_interrupted' if interrupted else ('runs_raising' if ordinary else 'runs_returning'))
     # class
@@ -109,6 +113,8 @@ def run_program(ctx, prog, rng, pidx):
         if op in ('in', 'out'):
             placements.append({pos: 'body_raise_user'})
             placements.append({pos: 'body_raise_interrupt'})
+        if pos == trace[-1][0]:
+            placements.append({pos: 'raise_framework_error'})
         if pos in (trace[0][0], trace[-1][0]):
             # an ordinary exception the serializer cannot encode (it carries a live resource), raised with a message and without arguments
             placements.append({pos: 'raise_user_unencodable'})
@@ -156,6 +162,12 @@ def run_program(ctx, prog, rng, pidx):
                     continue
                 md = saves[0][4]
                 interrupted = judge_metadata(ctx, res, md, w, extractor)
+                # structurally: a recording that is not flagged incomplete holds the result of its operation
+                from playback.tape_recorder import TapeRecorder as _TR
+                has_result = any(k.startswith('output: ' + a + ' ') for k in (saves[0][3] or []) for a in set([_TR.OPERATION_OUTPUT_ALIAS, type(rec).OPERATION_OUTPUT_ALIAS]))
+                ctx.count('completeness_flags_compared_with_content')
+                if not md.get(_TR.INCOMPLETE_RECORDING) and not has_result:
+                    ctx.violation('a recording that holds no operation result is not flagged incomplete', dict(w, keys=(saves[0][3] or [])[:4]))
                 if any(e[0] == 'save_failed' for e in res.spy_events):
                     continue
                 (incomplete_ids if interrupted else complete_ids).append((res.live.cls.__name__, saves[0][2]))
